@@ -38,9 +38,21 @@ type Stats struct {
 	Jobs          int64
 	WorkerDeaths  int64
 	WatchdogFired int64
-	Inconclusive  int64 // watchdog fired but the isolated re-run finished
+	Inconclusive  int64 // given up in the pool, no verdict from the isolated re-run either (or a state-dependent runaway)
+	RerunAlone    int64 // given up in the pool, judged by the isolated re-run that finished
 	Restarts      int64
 	Skipped       int64 // jobs not run because the watchdog budget was used up
+
+	mu      sync.Mutex
+	Firings []string // job id and reason of every watchdog firing (for the inconclusive message)
+}
+
+func (s *Stats) noteFiring(what string) {
+	s.mu.Lock()
+	if len(s.Firings) < 12 {
+		s.Firings = append(s.Firings, what)
+	}
+	s.mu.Unlock()
 }
 
 type Pool struct {
@@ -72,11 +84,12 @@ func New(opt Options) *Pool {
 }
 
 type worker struct {
-	cmd    *exec.Cmd
-	in     io.WriteCloser
-	out    *bufio.Reader
-	errLog string
-	dir    string
+	lastJobCPU time.Duration // CPU time the last finished job took
+	cmd        *exec.Cmd
+	in         io.WriteCloser
+	out        *bufio.Reader
+	errLog     string
+	dir        string
 }
 
 func (p *Pool) start() (*worker, error) {
@@ -254,6 +267,9 @@ func (w *worker) exec1(job *proto.Job, budget, idleWall, hardCap time.Duration) 
 				c1, _, _ := procCPU(pid, false)
 				fmt.Fprintf(os.Stderr, "SLOW job %s took %.1fs wall, %.1fs cpu (%d bytes of job)\n", job.ID, d.Seconds(), (c1 - cpu0).Seconds(), len(data))
 			}
+			if c1, _, ok := procCPU(pid, false); ok {
+				w.lastJobCPU = c1 - cpu0
+			}
 			return r.res, r.err, false, ""
 		case now := <-tick.C:
 			cpu, busy, ok := procCPU(pid, false)
@@ -381,7 +397,6 @@ func (p *Pool) Run(jobs <-chan *proto.Job, handle func(*proto.Job, *proto.Result
 				res, err, timedOut, why := w.exec1(job, p.opt.Watchdog, p.opt.IdleWall, p.opt.HardCap)
 				switch {
 				case timedOut:
-					atomic.AddInt64(&p.Stats.WatchdogFired, 1)
 					dump, _ := w.reap(syscall.SIGQUIT)
 					w = nil
 					blockedIn := ""
@@ -399,25 +414,44 @@ func (p *Pool) Run(jobs <-chan *proto.Job, handle func(*proto.Job, *proto.Result
 					case to2 && why2 == "wall-cap":
 						// neither out of CPU budget nor blocked, just not finished within the cap: no verdict
 						iw.kill()
+						atomic.AddInt64(&p.Stats.WatchdogFired, 1)
 						atomic.AddInt64(&p.Stats.Inconclusive, 1)
+						p.Stats.noteFiring(job.ID + ": " + why + ", alone: wall-cap")
 						res = &proto.Result{ID: job.ID, WorkerErr: "the job reached the wall-clock cap without exhausting its CPU budget (machine too busy?)"}
 					case to2:
+						atomic.AddInt64(&p.Stats.WatchdogFired, 1)
 						d2, _ := iw.reap(syscall.SIGQUIT)
 						res = &proto.Result{ID: job.ID, Fatal: &proto.FatalInfo{Kind: "hang", Stderr: "given up: " + why2 + "\n" + truncS(d2, 3000)}}
 						if m := reFrame.FindStringSubmatch(d2); m != nil {
 							res.Fatal.Func = strings.TrimPrefix(strings.TrimPrefix(m[1], "github.com/jsightapi/"), "jsight-api-core/")
 						}
 					case err2 != nil:
+						atomic.AddInt64(&p.Stats.WatchdogFired, 1)
 						st, werr := iw.reap(0)
 						atomic.AddInt64(&p.Stats.WorkerDeaths, 1)
 						res = &proto.Result{ID: job.ID, Fatal: classifyDeath(st, werr)}
 					case blockedIn != "":
+						atomic.AddInt64(&p.Stats.WatchdogFired, 1)
 						// Alone the job returns at once, inside the long-lived worker it sat blocked (no CPU progress, no runnable
 						// thread) in the library: the hang depends on what the process did before.
 						iw.kill()
 						res = &proto.Result{ID: job.ID, Fatal: &proto.FatalInfo{Kind: "blocked-after-earlier-calls", Func: blockedIn, Stderr: truncS(dump, 3000)}}
-					default:
+					case why == "cpu-budget" && iw.lastJobCPU < p.opt.Watchdog/8:
+						// The long-lived worker burnt its whole CPU budget on a job that costs next to nothing in a fresh process:
+						// the work depends on what the process did before. The job is judged by the run that finished, the case is
+						// recorded as open.
+						atomic.AddInt64(&p.Stats.WatchdogFired, 1)
 						atomic.AddInt64(&p.Stats.Inconclusive, 1)
+						p.Stats.noteFiring(fmt.Sprintf("%s: cpu-budget in the long-lived worker, %.1f CPU-s alone", job.ID, iw.lastJobCPU.Seconds()))
+						res = r2
+						w = iw
+					default:
+						// A heavy job (finished alone within the larger budget), or a worker that waited for something outside the
+						// library (no goroutine was blocked inside it): the job is judged by the run that finished.
+						if atomic.AddInt64(&p.Stats.RerunAlone, 1) > 200 {
+							atomic.AddInt64(&p.Stats.WatchdogFired, 1)
+						}
+						p.Stats.noteFiring(fmt.Sprintf("%s: %s, finished alone in %.1f CPU-s", job.ID, why, iw.lastJobCPU.Seconds()))
 						res = r2
 						w = iw
 					}
@@ -459,6 +493,24 @@ func blockedLibraryFrame(dump string) string {
 		}
 		if strings.HasPrefix(state, "running") || strings.HasPrefix(state, "runnable") || strings.HasPrefix(state, "syscall") {
 			return ""
+		}
+		if f := reFrame.FindStringSubmatch(stack); f != nil {
+			fn := strings.TrimPrefix(f[1], "github.com/jsightapi/")
+			return strings.TrimPrefix(fn, "jsight-api-core/") + " [" + strings.Split(state, ",")[0] + "]"
+		}
+	}
+	// any other goroutine that waits inside the library (the goroutines of a concurrent batch): the process made no progress
+	// for the whole idle period, so a goroutine that sits on a lock or a channel in library code is stuck there
+	for _, m := range reGoroutine.FindAllStringSubmatch(dump, -1) {
+		state, stack := m[1], m[2]
+		waits := false
+		for _, w := range []string{"semacquire", "sync.Mutex.Lock", "sync.RWMutex", "chan receive", "chan send", "select", "sync.Cond.Wait", "sync.WaitGroup.Wait"} {
+			if strings.HasPrefix(state, w) {
+				waits = true
+			}
+		}
+		if !waits {
+			continue
 		}
 		if f := reFrame.FindStringSubmatch(stack); f != nil {
 			fn := strings.TrimPrefix(f[1], "github.com/jsightapi/")
